@@ -63,4 +63,22 @@ def handler_disposition(fn: FunctionInfo, t: ast.Try, h: ast.ExceptHandler) -> s
             return "return-nonzero"
         if isinstance(v, ast.Constant) and isinstance(v.value, int) and not isinstance(v.value, bool) and v.value != 0:
             return "return-nonzero"
+    # a status flag: from the handler every way out of the function is `return <non-zero literal>` (or a raise)
+    try:
+        from .cfg import CFG, EXIT
+
+        g = CFG(fn.node)
+        reach = g.reachable_with_flags([g.node_of(h)], labels_excluded=["exc"])
+        rets = [g.nodes[n].ast for n in reach if g.nodes[n].kind == "stmt" and isinstance(g.nodes[n].ast, ast.Return)]
+        falls_off = any(m == EXIT and not isinstance(g.nodes[n].ast, (ast.Return, ast.Raise)) for n in reach for m, _l in g.succ[n])
+
+        def nonzero(v: ast.AST | None) -> bool:
+            if isinstance(v, ast.UnaryOp) and isinstance(v.op, ast.USub) and isinstance(v.operand, ast.Constant):
+                return bool(v.operand.value)
+            return isinstance(v, ast.Constant) and isinstance(v.value, int) and not isinstance(v.value, bool) and v.value != 0
+
+        if rets and not falls_off and all(nonzero(r.value) for r in rets):  # type: ignore[union-attr]
+            return "return-nonzero"
+    except Exception:  # noqa: BLE001 - the classification stays "other"
+        pass
     return "other"
